@@ -101,6 +101,20 @@ class TreeGen:
                 self.kinds.add("else")
                 els = self.stmts(depth + 1, vars_, in_for)
             newvar = None
+            if els is not None and depth == 0 and r.random() < 0.08:
+                # a new variable defined in some branches only (never in the first / only in the first): the library has to
+                # refuse it when the statement closes - a variable that exists depending on a secret is not oblivious
+                self.kinds.add("newvar-in-some-branches-only")
+                nv = "d%d" % len(self.extra)
+                self.extra.append(nv)
+                target = r.choice(["else", "then"] + (["elif"] if elifs else []))
+                if target == "else":
+                    els.append(("assign_new", nv, self.expr(vars_)))
+                elif target == "then":
+                    n[2].append(("assign_new", nv, self.expr(vars_)))
+                else:
+                    elifs[-1][1].append(("assign_new", nv, self.expr(vars_)))
+                return ("if", n[1], n[2], elifs, els, None)
             if els is not None and depth == 0 and r.random() < 0.6:
                 # a new variable defined in every branch
                 self.kinds.add("newvar")
@@ -365,6 +379,15 @@ def worker(job):
                     and "lists of different length" in str(out.exc):
                 R.count("list_length_change_refused_loudly")
                 R.case(cell="%s|refused" % kinds, key=key)
+                continue
+            if "newvar-in-some-branches-only" in tg.kinds:
+                R.case(cell="%s|refusal-expected" % kinds, key=key)
+                if isinstance(out.exc, RuntimeError) and ("spurious value" in str(out.exc) or "did not set value" in str(out.exc)):
+                    R.count("inconsistent_branch_variables_refused")
+                elif out.exc is None:
+                    R.violation("inconsistent-branch-variables-accepted", "a variable defined in some branches only was accepted: after the statement it exists whatever the secret conditions were", **det)
+                else:
+                    R.violation(classify_raise(out.exc, api_src), "block-API program raised %s: %s" % (type(out.exc).__name__, str(out.exc)[:150]), **det)
                 continue
             if out.exc is not None:
                 R.case(cell="%s|api-raised" % kinds, key=key)
